@@ -30,6 +30,48 @@ def make_docs(rng, n):
 SPELLINGS = strings.SPELLED_LITERALS
 
 
+def cli_reruns(v, rng, docs, tier):
+    """Several sources in one invocation, run again unchanged, run again after editing one of them: every .ui on disk must be a
+    well-formed document of its own source after every run (the in-process route cannot see state kept between sources or runs)."""
+    import os
+    import subprocess
+    wd = common.workdir("c09cli")
+    # documents holding characters XML cannot carry are the listed finding's business, not this part's
+    plain = [d for d in docs if all(strings.xml_carriable(x) for b in d.scalar_bindings() for (x, _) in b.strings)][:400]
+    n_forms = 0
+    for k in range(4 if tier == "quick" else 30):
+        pd = os.path.join(wd, "p%d" % k)
+        os.makedirs(pd)
+        names = ["First", "Second", "Third", "Fourth"][:rng.randint(2, 4)]
+        srcs = {n: rng.choice(plain).source for n in names}
+        for n, t in srcs.items():
+            open(os.path.join(pd, n + ".qml"), "w").write(t)
+        for run in ("fresh", "unchanged", "edit-last", "edit-first", "unchanged-again"):
+            if run.startswith("edit"):
+                n = names[-1] if run == "edit-last" else names[0]
+                srcs[n] = rng.choice(plain).source
+                open(os.path.join(pd, n + ".qml"), "w").write(srcs[n])
+            opts = ["--no-dynamic-binding"] if (k % 2 == 1) else []      # these documents have no dynamic bindings
+            p = subprocess.run([common.CLI, "generate-ui", "--foreign-types", common.METATYPES, "--foreign-types", common.VF_TYPES] + opts
+                               + [n + ".qml" for n in names], cwd=pd, capture_output=True, env=dict(os.environ, NO_COLOR="1"), timeout=300)
+            if p.returncode != 0:
+                break      # a generated document qmluic refuses: nothing to say here (C04/C05)
+            for n in names:
+                ui = open(os.path.join(pd, n.lower() + ".ui"), "rb").read().decode("utf-8", "replace")
+                rp = {"sources": {x: srcs[x] for x in names}, "run": run, "file": n.lower() + ".ui", "ui": ui[:4000]}
+                try:
+                    root = uiparse.parse(ui)
+                except uiparse.UiSyntaxError as e:
+                    v.violation("ill-formed", "%s after the %s run of a %d-source invocation is rejected by expat: %s" % (n.lower() + ".ui", run, len(names), e), rp)
+                    break
+                n_forms += 1
+                cls = root.find("class")
+                if root.tag != "ui" or cls is None or cls.text != n:
+                    v.violation("class", "%s after the %s run: root <%s>, <class> %r (type name %s)" % (n.lower() + ".ui", run, root.tag, cls.text if cls is not None else None, n), rp)
+                    break
+    return n_forms
+
+
 def spelled_literals(v, rng, pools, distinct):
     sites = ('QLabel { text: %s }', 'QLabel { text: qsTr(%s) }', 'QComboBox { model: [%s, "z"] }', 'QLabel { toolTip: "<" + %s }')
     docs, meta = [], []
@@ -177,6 +219,7 @@ def run(tier, seed, replay=None):
                     samples.append({"pool": pool, "binding": "%s.%s" % (b.owner.cls, ".".join(b.path)), "source": b.src,
                                     "denotes": s, "read_back_equal": True})
     n_spelled = spelled_literals(v, rng, pools, distinct)
+    n_cli_forms = cli_reruns(v, rng, docs, tier)
     total = n_acc + n_rej
     if total and n_rej > 0.25 * total:
         v.inconc("generator produced %d rejected documents of %d: %r" % (n_rej, total, rejected_msgs))
@@ -187,6 +230,6 @@ def run(tier, seed, replay=None):
         evaluations=total, distinct_nontrivial=len(distinct),
         rule="documents with hostile strings (markup, quotes, blanks, line breaks, CR, non-ASCII, astral; a flagged fifth with "
              "characters XML 1.0 cannot carry) in every string-bearing position; distinct = distinct (pool, string, binding path)",
-        samples=samples, accepted=n_acc, rejected=n_rej, rejected_reasons=rejected_msgs, strings_read_back=n_strings,
+        samples=samples, accepted=n_acc, rejected=n_rej, rejected_reasons=rejected_msgs, strings_read_back=n_strings, cli_forms_reparsed_over_reruns=n_cli_forms,
         strings_by_pool=pools, documents_with_unrepresentable_chars=n_ctrl_docs, floor=100,
     )
